@@ -20,6 +20,7 @@ copy_demo() { for f in "$DST"/demo/*; do dest=$(grep -m1 -oE 'Copy this file to:
 rm_demo() { git clean -fdq; }
 DEMO_CMD=$(grep -h -m1 -oE 'Run with:\s+.*' "$DST"/demo/* | head -1 | sed -E 's/Run with:\s+//')
 [ -n "$DEMO_CMD" ] || DEMO_CMD=$(jq -r .demo_cmd "$DST/agent_meta.json" | sed -E 's/^cp [^&]*&& *//')
+DEMO_CMD=$(echo "$DEMO_CMD" | sed -E 's/^cd <[^>]*> *&& *//; s/^cp [^&]*&& *//; s/^cd <[^>]*> *&& *//')
 PKGS=$(git apply --numstat "$DST/patch.diff" | awk '{print "./"$3}' | xargs -n1 dirname | sort -u | tr '\n' ' ')
 echo "demo_cmd: $DEMO_CMD" >>"$LOG"; echo "touched pkgs: $PKGS" >>"$LOG"
 # 1. unpatched + demo -> PASS
